@@ -9,7 +9,11 @@ package dnsforward
 // so the verdict does not depend on when the check runs.
 
 import (
+	"bytes"
+	"encoding/json"
 	"fmt"
+	"net/http"
+	"net/http/httptest"
 	"net/netip"
 	"testing"
 	_ "time/tzdata"
@@ -37,9 +41,12 @@ func TestVFC18ServicesPause(t *testing.T) {
 		clientPaused := rapid.Bool().Draw(t, "client_paused")
 		czone := rapid.SampledFrom(vfC18Zones).Draw(t, "client_zone")
 
+		handlers := map[string]http.HandlerFunc{}
+		webRegistered = false
 		wc := &vfWorldConf{
 			ProtectionEnabled: true, FilteringEnabled: true, ServiceIDs: globalIDs, ServicesPaused: globalPaused, ServicesZone: gzone,
-			Mode: filtering.BlockingModeNXDOMAIN,
+			Mode:         filtering.BlockingModeNXDOMAIN,
+			HTTPRegister: func(method, url string, h http.HandlerFunc) { handlers[method+" "+url] = h },
 		}
 		cliAddr := netip.MustParseAddr("192.0.2.10")
 		if hasClient {
@@ -53,6 +60,56 @@ func TestVFC18ServicesPause(t *testing.T) {
 			t.Fatalf("VERIF-INCONCLUSIVE world: %v", err)
 		}
 		defer w.close()
+		w.flt.RegisterFilteringHandlers()
+
+		// The global settings may then be changed at run time through either
+		// generation of the API: the deprecated call sets the list only (the
+		// pause schedule stays), the current one sets both.
+		apiCall := func(method, path string, body any) {
+			h := handlers[method+" "+path]
+			if h == nil {
+				t.Fatalf("VERIF-INCONCLUSIVE no handler %s %s", method, path)
+			}
+			b, _ := json.Marshal(body)
+			rec := httptest.NewRecorder()
+			h(rec, httptest.NewRequest(method, path, bytes.NewReader(b)))
+			if rec.Code != http.StatusOK {
+				t.Fatalf("%s %s %s refused: %d %s", method, path, b, rec.Code, rec.Body.String())
+			}
+		}
+		for k, nChanges := 0, rapid.IntRange(0, 2).Draw(t, "n_api_changes"); k < nChanges; k++ {
+			label := fmt.Sprintf("chg%d", k)
+			ids := rapid.SliceOfNDistinct(rapid.SampledFrom(vfServiceIDs), 0, 3, rapid.ID[string]).Draw(t, label+"_services")
+			if ids == nil {
+				ids = []string{}
+			}
+			if rapid.Bool().Draw(t, label+"_legacy") {
+				apiCall(http.MethodPost, "/control/blocked_services/set", ids)
+				globalIDs = ids
+				vfC18.Class("services:list_set_through_deprecated_api")
+			} else {
+				globalPaused = rapid.Bool().Draw(t, label+"_paused")
+				gzone = rapid.SampledFrom(vfC18Zones).Draw(t, label+"_zone")
+				apiCall(http.MethodPut, "/control/blocked_services/update", map[string]any{"ids": ids, "schedule": vfWeekIn(gzone, globalPaused)})
+				globalIDs = ids
+				vfC18.Class("services:updated_through_api")
+			}
+			// the schedule the API shows is the one in force
+			rec := httptest.NewRecorder()
+			handlers["GET /control/blocked_services/get"](rec, httptest.NewRequest(http.MethodGet, "/control/blocked_services/get", nil))
+			var shown struct {
+				Schedule map[string]any `json:"schedule"`
+				IDs      []string       `json:"ids"`
+			}
+			if jerr := json.Unmarshal(rec.Body.Bytes(), &shown); jerr != nil {
+				t.Fatalf("GET /control/blocked_services/get: %v: %s", jerr, rec.Body.String())
+			}
+			_, hasMon := shown.Schedule["mon"]
+			if tz, _ := shown.Schedule["time_zone"].(string); tz != gzone || hasMon != globalPaused || fmt.Sprint(shown.IDs) != fmt.Sprint(globalIDs) {
+				t.Fatalf("after the change GET /control/blocked_services/get shows %s, want ids %v, zone %s, paused all week %t",
+					rec.Body.String(), globalIDs, gzone, globalPaused)
+			}
+		}
 
 		n := rapid.IntRange(2, 8).Draw(t, "n_queries")
 		for i := 0; i < n; i++ {
